@@ -444,6 +444,163 @@ def gen_constraints(repo: Path, notes: list) -> str:
     return "\n".join(out)
 
 
+# -------------------------------------------------------------------------------------------------------------
+# utils/functional.py: multi, copy_value  ->  Gen/Functional.lean (over Utv.C03C.CVal; recursion left open: the
+# recursive call becomes the parameter `rec`, theorems are about every function satisfying the equation)
+# -------------------------------------------------------------------------------------------------------------
+
+FUNC_CLS = {"list": ".list", "tuple": ".tuple", "set": ".set", "frozenset": ".frozenset", "dict": ".dict"}
+
+
+class FunctionalTranslator:
+    def __init__(self, fn: ast.FunctionDef, bool_siblings: set[str], src_file: str):
+        self.fn = fn
+        self.bool_siblings = bool_siblings
+        self.src_file = src_file
+
+    def fail(self, node, why=""):
+        raise Untranslatable(f"{self.src_file}:{getattr(node, 'lineno', '?')} {type(node).__name__} {why}")
+
+    def name(self, e) -> str:
+        if isinstance(e, ast.Name) and e.id not in FUNC_CLS:
+            return lname(e.id)
+        self.fail(e, "expected a local name")
+
+    def cls(self, e) -> str:
+        if isinstance(e, ast.Name) and e.id in FUNC_CLS:
+            return FUNC_CLS[e.id]
+        # type({}.values()) / type({}.keys())
+        if isinstance(e, ast.Call) and isinstance(e.func, ast.Name) and e.func.id == "type" and len(e.args) == 1 and not e.keywords:
+            a = e.args[0]
+            if isinstance(a, ast.Call) and isinstance(a.func, ast.Attribute) and isinstance(a.func.value, ast.Dict) \
+                    and not a.func.value.keys and not a.args and a.func.attr in ("values", "keys"):
+                return ".dictValues" if a.func.attr == "values" else ".dictKeys"
+        self.fail(e, "class expression")
+
+    def cond(self, e) -> str:
+        if isinstance(e, ast.UnaryOp) and isinstance(e.op, ast.Not):
+            return f"(!{self.cond(e.operand)})"
+        if isinstance(e, ast.BoolOp):
+            op = " && " if isinstance(e.op, ast.And) else " || "
+            return "(" + op.join(self.cond(v) for v in e.values) + ")"
+        if isinstance(e, ast.Call) and isinstance(e.func, ast.Name) and not e.keywords:
+            if e.func.id == "isinstance" and len(e.args) == 2:
+                c = e.args[1]
+                cs = [self.cls(x) for x in c.elts] if isinstance(c, ast.Tuple) else [self.cls(c)]
+                return f"(CV.isinstance {self.name(e.args[0])} [{', '.join(cs)}])"
+            if e.func.id in self.bool_siblings and len(e.args) == 1:
+                return f"({e.func.id} {self.name(e.args[0])})"
+        self.fail(e, "condition")
+
+    def elt(self, e, var: str) -> str:
+        """element expression of a comprehension over `var`: the variable itself or f(var) with f the function itself"""
+        if isinstance(e, ast.Name) and e.id == var:
+            return f"pure {lname(var)}"
+        if isinstance(e, ast.Call) and isinstance(e.func, ast.Name) and e.func.id == self.fn.name and len(e.args) == 1 \
+                and not e.keywords and isinstance(e.args[0], ast.Name) and e.args[0].id == var:
+            return f"rec {lname(var)}"
+        self.fail(e, "comprehension element")
+
+    def items(self, e) -> str:
+        """[g(d) for d in x] / (g(d) for d in x)  ->  M (List CVal)"""
+        if isinstance(e, (ast.ListComp, ast.GeneratorExp)) and len(e.generators) == 1:
+            g = e.generators[0]
+            if not g.ifs and not g.is_async and isinstance(g.target, ast.Name):
+                return f"(← CV.iter {self.name(g.iter)}).mapM (fun {lname(g.target.id)} => {self.elt(e.elt, g.target.id)})"
+        self.fail(e, "comprehension form")
+
+    def value(self, e) -> str:
+        """-> code of type M CVal"""
+        if isinstance(e, ast.Name):
+            return f"pure {self.name(e)}"
+        if isinstance(e, ast.ListComp):
+            return f"CV.construct W .list (← {self.items(e)})"
+        if isinstance(e, ast.DictComp) and len(e.generators) == 1:
+            g = e.generators[0]
+            it = g.iter
+            if not g.ifs and isinstance(g.target, ast.Tuple) and len(g.target.elts) == 2 and all(isinstance(x, ast.Name) for x in g.target.elts) \
+                    and isinstance(it, ast.Call) and isinstance(it.func, ast.Attribute) and it.func.attr == "items" and not it.args \
+                    and isinstance(e.key, ast.Name) and e.key.id == g.target.elts[0].id:
+                v = g.target.elts[1].id
+                return f"CV.dictMapValues {self.name(it.func.value)} (fun {lname(v)} => {self.elt(e.value, v)})"
+            self.fail(e, "dict comprehension form")
+        if isinstance(e, ast.Call) and len(e.args) == 1 and not e.keywords:
+            f = e.func
+            if isinstance(f, ast.Call) and isinstance(f.func, ast.Name) and f.func.id == "type" and len(f.args) == 1:
+                return f"CV.construct W (CV.typeOf {self.name(f.args[0])}) (← {self.items(e.args[0])})"
+            if isinstance(f, ast.Name) and f.id in FUNC_CLS and f.id != "dict":
+                return f"CV.construct W {FUNC_CLS[f.id]} (← {self.items(e.args[0])})"
+        self.fail(e, "returned expression")
+
+    def stmts(self, body, ind: str) -> list[str]:
+        out = []
+        for st in body:
+            if isinstance(st, ast.Expr) and isinstance(st.value, ast.Constant) and isinstance(st.value.value, str):
+                continue
+            if isinstance(st, ast.Return) and st.value is not None:
+                out.append(f"{ind}return (← {self.value(st.value)})")
+            elif isinstance(st, ast.If):
+                out.append(f"{ind}if {self.cond(st.test)} then")
+                out += self.stmts(st.body, ind + "  ") or [f"{ind}  pure ()"]
+                if st.orelse:
+                    out.append(f"{ind}else")
+                    out += self.stmts(st.orelse, ind + "  ")
+            else:
+                self.fail(st, "statement")
+        return out
+
+    def args(self):
+        a = self.fn.args
+        if a.vararg or a.kwarg or a.kwonlyargs or a.defaults or len(a.args) != 1:
+            self.fail(self.fn, "signature")
+        return a.args[0].arg
+
+    def translate_bool(self) -> str:
+        arg = self.args()
+        body = [st for st in self.fn.body if not (isinstance(st, ast.Expr) and isinstance(st.value, ast.Constant))]
+        if len(body) != 1 or not isinstance(body[0], ast.Return):
+            self.fail(self.fn, "bool function body")
+        return (f"/-- {self.src_file}:{self.fn.lineno} `{self.fn.name}` -/\n"
+                f"def {self.fn.name} ({lname(arg)} : CVal) : Bool :=\n  {self.cond(body[0].value)}")
+
+    def translate_step(self) -> str:
+        arg = self.args()
+        lines = [f"/-- {self.src_file}:{self.fn.lineno} `{self.fn.name}`, one unfolding: the recursive calls go through `rec` -/",
+                 f"def {self.fn.name}_step (W : World) (rec : CVal → M CVal) ({lname(arg)} : CVal) : M CVal := do",
+                 "  let _ := W", "  let _ := rec"]
+        body = self.stmts(self.fn.body, "  ")
+        if not body:
+            self.fail(self.fn, "empty body")
+        return "\n".join(lines + body)
+
+
+def gen_functional(repo: Path, notes: list) -> str:
+    src_file = "utype/utils/functional.py"
+    tree = ast.parse((repo / src_file).read_text())
+    fns = {n.name: n for n in tree.body if isinstance(n, ast.FunctionDef)}
+    out = ["import Utv.Model.C03Copy",
+           "/-! GENERATED by tools/extract.py from utype/utils/functional.py (multi, copy_value) — do not edit. -/",
+           "set_option linter.unusedVariables false",
+           "namespace Utv.Gen.Functional", "open Utv.C03C", ""]
+    try:
+        if "multi" not in fns:
+            raise Untranslatable(f"{src_file} multi (not found)")
+        out.append(FunctionalTranslator(fns["multi"], set(), src_file).translate_bool() + "\n")
+    except Untranslatable as e:
+        notes.append(f"untranslatable {e} (functional.multi)")
+        out.append("def multi (f_ : CVal) : Bool := false\n")
+    try:
+        if "copy_value" not in fns:
+            raise Untranslatable(f"{src_file} copy_value (not found)")
+        out.append(FunctionalTranslator(fns["copy_value"], {"multi"}, src_file).translate_step() + "\n")
+    except Untranslatable as e:
+        notes.append(f"untranslatable {e} (functional.copy_value)")
+        out.append("def copy_value_step (W : World) (rec : CVal → M CVal) (data_ : CVal) : M CVal := "
+                   "throw (.unmodelled \"untranslatable copy_value\")\n")
+    out += ["end Utv.Gen.Functional", ""]
+    return "\n".join(out)
+
+
 def main():
     ap = argparse.ArgumentParser()
     ap.add_argument("--repo", default="/repo")
@@ -456,6 +613,7 @@ def main():
     tables, js = gen_tables(repo, notes)
     files["Tables.lean"] = tables
     files["Constraints.lean"] = gen_constraints(repo, notes)
+    files["Functional.lean"] = gen_functional(repo, notes)
     files["tables.json"] = json.dumps(js, indent=1, sort_keys=True)
     files["NOTES.txt"] = "\n".join(notes) + ("\n" if notes else "")
     for name, txt in files.items():
